@@ -44,7 +44,7 @@ Qed.
 
 Section Contra.
   Variable pfwd pinv : R * R -> option (R * R).
-  Variable fac : cu -> R.
+  Variable fac : cu -> R * R.
   Variable geographic : bool.
   Variable crs_units : cu.
   Local Notation convert := (convert_units RO pfwd pinv fac geographic crs_units).
@@ -113,6 +113,8 @@ Section Contra.
   Proof.
     unfold unit_ok, eff_units. destruct crs_units eqn:E; cbn.
     - assert (geographic = true) by (apply facts_wf; reflexivity). split; [reflexivity|]. left; auto.
+    - assert (geographic = false) as -> by (destruct geographic; [destruct facts_wf as [H _]; discriminate (H eq_refl)|reflexivity]).
+      split; [reflexivity|]. right. repeat split; try discriminate; lra.
     - assert (geographic = false) as -> by (destruct geographic; [destruct facts_wf as [H _]; discriminate (H eq_refl)|reflexivity]).
       split; [reflexivity|]. right. repeat split; try discriminate; lra.
     - assert (geographic = false) as -> by (destruct geographic; [destruct facts_wf as [H _]; discriminate (H eq_refl)|reflexivity]).
